@@ -25,8 +25,8 @@ def schedules(nfit, rng, tier):
     return out
 
 
-def run(ctx):
-    rep = Report()
+def fault_pool(ctx):
+    """Clean runs, then the same runs with LinAlgError injected at scheduled GP.fit invocations (cached). Returns (meta, faulted traces)."""
     rng = ctx.sub_rng("c16")
     specs = []
     for mode in ("det", "decl", "he", "auto"):
@@ -49,6 +49,12 @@ def run(ctx):
             jobs.append((sp, {"gp_faults": sched}))
             meta.append((sp, sched, nfit))
     faulted = tracer.cached("c16fault", ctx.seed, ctx.tier, lambda: jobs)
+    return meta, faulted
+
+
+def run(ctx):
+    rep = Report()
+    meta, faulted = fault_pool(ctx)
     stats = {"faulted_runs": 0, "faults_injected": 0, "max_consecutive": 0, "modes": {}, "robust_retries": 0, "init_retries": 0, "rows_dropped_retries": 0}
     reqs, owners = [], []
     good = []
